@@ -24,6 +24,10 @@ pub struct Chan {
     /// everything that was written (kept only when `record` is set)
     pub record: bool,
     pub log: Vec<u8>,
+    /// if set, at most this many bytes are in flight: a writer gets `Pending` while the buffer is full
+    /// and accepts only what fits (a congested link)
+    pub capacity: Option<usize>,
+    pub writer: Option<Waker>,
 }
 
 pub type Shared = Arc<Mutex<Chan>>;
@@ -38,6 +42,14 @@ pub fn pair() -> (End, End) {
     let a: Shared = Default::default();
     let b: Shared = Default::default();
     (End { rx: a.clone(), tx: b.clone() }, End { rx: b, tx: a })
+}
+
+/// A pipe whose directions hold at most `cap` bytes each (writers see back-pressure).
+pub fn pair_bounded(cap: usize) -> (End, End) {
+    let (a, b) = pair();
+    a.rx.lock().unwrap().capacity = Some(cap);
+    a.tx.lock().unwrap().capacity = Some(cap);
+    (a, b)
 }
 
 /// Pushes raw bytes into a direction (as if the peer had written them).
@@ -77,15 +89,29 @@ impl AsyncRead for End {
             buf.put_slice(&[b]);
         }
         c.read += n as u64;
+        if n > 0 {
+            if let Some(w) = c.writer.take() {
+                w.wake();
+            }
+        }
         Poll::Ready(Ok(()))
     }
 }
 
 impl AsyncWrite for End {
-    fn poll_write(self: Pin<&mut Self>, _cx: &mut Context<'_>, data: &[u8]) -> Poll<std::io::Result<usize>> {
+    fn poll_write(self: Pin<&mut Self>, cx: &mut Context<'_>, data: &[u8]) -> Poll<std::io::Result<usize>> {
         let mut c = self.tx.lock().unwrap();
         if c.closed {
             return Poll::Ready(Err(std::io::ErrorKind::BrokenPipe.into()));
+        }
+        let mut data = data;
+        if let Some(cap) = c.capacity {
+            let room = cap.saturating_sub(c.buf.len());
+            if room == 0 && !data.is_empty() {
+                c.writer = Some(cx.waker().clone());
+                return Poll::Pending;
+            }
+            data = &data[..data.len().min(room)];
         }
         c.buf.extend(data.iter().copied());
         c.written += data.len() as u64;
